@@ -102,10 +102,19 @@ def r2(ctx):
             if not o.startswith("Some:") or o == "Some:ItemTooLarge":
                 continue
             c = consumed(p)
-            ok = tform(c) == tform(want)
+            from rules.c13 import simplify_trunc
+
+            diff = lin_add(simplify_trunc(c), simplify_trunc(want), -1)
+            ok = diff == 0 or tform(c) == tform(want)
+            if not ok:
+                # equal under the path's own guards? (e.g. nothing left to drop because key_length == body_length)
+                ok = Interp(ctx.facts).decide_cmp(p.state, "Eq", simplify_trunc(c), simplify_trunc(want)) is True
             k = "consumed[%s]:%s" % ("fresh" if state == "None" else "header-parsed", o[5:])
             prev = seen.get(k)
-            seen[k] = (ok and (prev is None or prev[0]), c)
+            if prev is None:
+                seen[k] = (ok, c)
+            elif prev[0] and not ok:
+                seen[k] = (False, c)
         for k, (ok, c) in sorted(seen.items()):
             rep.check(ok, k, "consumes %s" % short(want), "request decoded after consuming %s bytes of the stream, its header announces %s: the surplus/missing bytes are parsed as the next request (request smuggling / desynchronisation)" % (short(c, 120), short(want)), d.loc())
             rep.sample({"variant": k, "consumed": short(c, 120)})
